@@ -10,8 +10,6 @@
                              scope = n (no scope of its own) | s (scope, no restat) | t | f ;
                              rule  = n | t | f   (the rule's own restat binding)
            -> PRE <graph> POST OK <graph> | POST ERR <class> | POST NONE
-              followed by " UBSELF" when the file parses and names itself as an implicit input
-              (ub_self_input: the C++ then modifies a vector it is iterating; see DyndepDefs.v)
               (same format as `impl_run dyndep`, see harness/run_dyndep.cc)
    inline  same input -> INL <graph>   inline_dyndep g stmts  (stmts = parse of the content against g)
                          | INL ERR <class>  when the content does not parse
@@ -144,12 +142,9 @@ let () =
       let pre = "PRE " ^ dump g in
       if content = "~" then pre ^ " POST NONE" else
       let c = if content = "!" then None else Some (bytes_of_hex content) in
-      let ub = (match c with
-          | Some b -> (match parse_gen (graph_chk g) b with Ok stmts -> ub_self_input f stmts | Err _ -> false)
-          | None -> false) in
       (match dyndep_load g f c with
        | Ok g' -> pre ^ " POST OK " ^ dump g'
-       | Err e -> pre ^ " POST ERR " ^ err_class e) ^ (if ub then " UBSELF" else ""))
+       | Err e -> pre ^ " POST ERR " ^ err_class e))
   | "inline" -> each_line (fun l ->
       let (g, _, content) = parse_case l in
       (match parse_gen (graph_chk g) (bytes_of_hex content) with
